@@ -12,7 +12,7 @@ TRUST_K = 'Kani 0.68 codegen and CBMC 6.11 (IEEE-754 model, CaDiCaL); stubs and 
 
 CHECKS = {
     'C01': dict(cat='other', tech='symbolic execution of the MIR of cuboid, init, HalfSpace::new, clip_by_plane, the tetrahedral decomposition and VolumeIntegral with a symbolic clipping plane -> rational-function identities against a closed-form reference, decided by z3 (portfolio of two z3 versions); builder-loop and neighbour-pipeline obligations',
-                text='Bounded end-to-end claim, solver-decided over the reals: ONE clip of the initial cell of a concrete box by an arbitrary plane (symbolic normal and point; all normal components non-zero; no corner inside the float error band). On each of the 81 paths: exactly the corners on the negative side are removed, the new vertices lie on the plane, on their walls and inside the box (one per cut edge), and the computed volume equals the closed-form volume of box /\\ half-space (independent inclusion-exclusion reference). Hence for two generators anywhere in the box each cell is the nearest-generator region with the exact volume. Quick tier: removed-corner counts {0,1,2,6,7}; thorough: all counts and a second, non-cubic box. Further clips are covered only through their mechanisms (candidates clipped in distance order until farther than the safety radius; every search result reaches the builder). Centroids, face areas, several clips on symbolic vertices and the r-tree order are outside.',
+                text='Bounded end-to-end claim, solver-decided over the reals: ONE clip of the initial cell of a concrete box by an arbitrary plane (symbolic normal and point; all normal components non-zero; no corner inside the float error band). On each of the 81 paths: exactly the corners on the negative side are removed, the new vertices lie on the plane, on their walls and inside the box (one per cut edge), and the computed volume equals the closed-form volume of box /\\ half-space (independent inclusion-exclusion reference). Hence for two generators anywhere in the box each cell is the nearest-generator region with the exact volume. Removed-corner counts {0,1,2,6,7} (cuts through 3, 4 or 5 corners - 11-12 vertices, hexagonal sections - are outside: their identities were not attempted within the time budget); thorough tier: a second, non-cubic box with non-zero anchor. Further clips are covered only through their mechanisms (candidates clipped in distance order until farther than the safety radius; every search result reaches the builder). Centroids, face areas, several clips on symbolic vertices and the r-tree order are outside.',
                 note=TRUST_M, ref='DESIGN.md 7.4'),
     'C02': dict(cat='other', tech='same single-clip encoding as C01 -> polynomial identities decided by z3: computed volume = closed form, closed forms of the two sides of the plane add up to the box volume, positivity; box normalisation obligations',
                 text='Bounded claim, solver-decided over the reals: for two generators (one clip of the initial cell by an arbitrary plane) the two computed cell volumes are the closed-form volumes of the two sides of the bisector, which add up to the box volume for every removed-corner pattern and sign pattern of the normal, and are positive (thorough tier). Unit thickness of unused axes: anchor/width normalised to -0.5/1 on both routes; periodic box tripled exactly on active axes. More than two generators, periodic sums and 1D/2D sums are outside.',
